@@ -260,7 +260,7 @@ func carriedProps(d Desc) int {
 			}
 		}
 		unspec := d.Kind == "default" || (d.Kind == "custom" && d.Unspec)
-		if named || (unspec && !(a.Dim == 2 && a.Name == "TexCoord")) {
+		if named || (unspec && !(a.Dim == 2 && a.Name == "TexCoord" && d.Topo == "triangle")) {
 			n++
 		}
 	}
@@ -284,8 +284,9 @@ func hasAttr(d Desc, dim int, name string) bool {
 	return false
 }
 
-func makeCase(d Desc) hx.Case {
+func makeCase(d Desc) []hx.Case {
 	c := hx.Case{Kind: "mesh", Desc: d}
+	var classes [3]string
 	if d.Kind != "custom" {
 		d.Writers = nil
 		d.Unspec = d.Kind == "default"
@@ -305,6 +306,7 @@ func makeCase(d Desc) hx.Case {
 			wres[k] = "(WFile " + file + ")"
 			out := plyx.SafeRead(data)
 			outs[k] = plyx.OutcomeCoq(out)
+			classes[k] = out.Class
 			if os.Getenv("VERIF_DEBUG") != "" {
 				fmt.Fprintf(os.Stderr, "fmt %d: read %s %s\n", k, out.Class, out.Msg)
 			}
@@ -335,25 +337,39 @@ func makeCase(d Desc) hx.Case {
 			}
 		}
 	}
-	// a configuration that writes no vertex property at all for n >= 1 vertices: the ASCII writer then emits no
-	// vertex lines and ply.ReadMesh cannot read the file back (observed defect, see notes/C04.md; the generator
-	// avoids this class, the key marks it when it comes from a replay or the corpus)
-	if d.N >= 1 && carriedProps(d) == 0 {
-		c.FailKey = "ply:ascii-vertex-without-properties"
+	// Known findings, both ASCII-only.  The key is set only when the observation has the recorded signature;
+	// the binary encodings of the same mesh are judged separately by a companion CWbin case without a key, so
+	// every other failure on these meshes is still reported as a violation.
+	known := ""
+	// (a) a configuration that writes no vertex property at all for n >= 1 vertices: the ASCII file has no
+	// vertex lines, ply.ReadMesh reports an error on it and reads both binary files
+	if d.N >= 1 && carriedProps(d) == 0 && classes == [3]string{"declared", "mesh", "mesh"} {
+		known = "ply:ascii-vertex-without-properties"
 	}
-	// known finding: an 8-bit scalar property (dimension-1 writer of type uchar that qualifies) — ASCII reads it raw
-	if d.N >= 1 {
+	// (b) an 8-bit scalar property (uchar writer whose names are not a reader group): ASCII reads it raw
+	if d.N >= 1 && classes == [3]string{"mesh", "mesh", "mesh"} {
 		for _, w := range tableOf(d) {
 			if w.Type == "uchar" && hasAttr(d, w.Dim, w.Attr) && !recognisedGroup(w.Names) {
-				c.FailKey = "ply:ascii-uchar-scalar-raw"
+				known = "ply:ascii-uchar-scalar-raw"
 			}
 		}
+	}
+	if known != "" && c.FailKey == "" {
+		c.FailKey = known
 	}
 	c.Coq = fmt.Sprintf("CW %s\n %s\n %s\n %s\n %s\n %s\n %s\n %s", optsCoq(d), meshCoq(d), wres[0], wres[1], wres[2], outs[0], outs[1], outs[2])
 	c.Nontriv = d.N >= 1 && len(d.Attrs) >= 1
 	kb, _ := json.Marshal(d)
 	c.Key = string(kb)
-	return c
+	if known == "" {
+		return []hx.Case{c}
+	}
+	b := hx.Case{Kind: "mesh-bin", Desc: c.Desc, Nontriv: c.Nontriv, Key: "bin|" + c.Key, GoFail: c.GoFail}
+	if c.GoFail != "" {
+		b.FailKey = c.FailKey
+	}
+	b.Coq = fmt.Sprintf("CWbin %s\n %s\n %s\n %s\n %s\n %s", optsCoq(d), meshCoq(d), wres[1], wres[2], outs[1], outs[2])
+	return []hx.Case{c, b}
 }
 
 // ---------------- generators ----------------
@@ -430,7 +446,46 @@ func genRows(r *hx.Rng, n, dim int, unit, integral bool) [][]float64 {
 	return rows
 }
 
+// genNoProps: a well-formed mesh whose configuration writes no vertex property (known finding
+// ply:ascii-vertex-without-properties): a triangle mesh carrying only TexCoord, or unspecified properties off
+// with only user-named attributes
+func genNoProps(r *hx.Rng) Desc {
+	var d Desc
+	d.N = r.Range(1, 6)
+	if r.Bool() {
+		d.Topo = "triangle"
+		nt := r.Range(1, 4)
+		d.Idx = make([]int, 3*nt)
+		for i := range d.Idx {
+			d.Idx[i] = r.Intn(d.N)
+		}
+		d.Attrs = []Attr{{2, "TexCoord", genRows(r, d.N, 2, false, false)}}
+		d.Kind, d.Unspec = "default", true
+	} else {
+		if r.Bool() {
+			d.Topo = "point"
+			d.Idx = make([]int, d.N)
+			for i := range d.Idx {
+				d.Idx[i] = i
+			}
+		} else {
+			d.Topo = "triangle"
+			d.Idx = make([]int, 3*r.Range(0, 3))
+			for i := range d.Idx {
+				d.Idx[i] = r.Intn(d.N)
+			}
+		}
+		dim := r.Range(1, 4)
+		d.Attrs = []Attr{{dim, hx.Pick(r, []string{"Intensity", "Class", "quality", "Foo"}), genRows(r, d.N, dim, false, false)}}
+		d.Kind = "default-nounspec"
+	}
+	return d
+}
+
 func genDesc(r *hx.Rng) Desc {
+	if r.Chance(3, 100) {
+		return genNoProps(r)
+	}
 	var d Desc
 	d.N = r.Range(1, 12)
 	if r.Chance(1, 12) {
@@ -480,9 +535,6 @@ func genDesc(r *hx.Rng) Desc {
 		if k.name == "Position" {
 			p = pPos
 		}
-		if k.name == "TexCoord" && d.Topo == "point" {
-			continue // the default writer drops it: filed separately
-		}
 		if r.Chance(p, 10) && !(k.name != "Position" && k.name != "Normal" && k.name != "Color" && k.name != "TexCoord" && r.Chance(1, 2)) {
 			d.Attrs = append(d.Attrs, Attr{k.dim, k.name, genRows(r, d.N, k.dim, k.name == "Color", false)})
 			used[fmt.Sprintf("%d/%s", k.dim, k.name)] = true
@@ -530,7 +582,7 @@ func genDesc(r *hx.Rng) Desc {
 		used[key] = true
 		d.Attrs = append(d.Attrs, Attr{dim, name, genRows(r, d.N, dim, false, false)})
 	}
-	onlyTex := len(d.Attrs) == 1 && d.Attrs[0].Name == "TexCoord" && d.Attrs[0].Dim == 2
+	onlyTex := len(d.Attrs) == 1 && d.Attrs[0].Name == "TexCoord" && d.Attrs[0].Dim == 2 && d.Topo == "triangle"
 	if len(d.Attrs) == 0 || onlyTex {
 		d.Attrs = append(d.Attrs, Attr{3, "Position", genRows(r, d.N, 3, false, false)})
 	}
@@ -685,8 +737,9 @@ func corner() []Desc {
 	tab[4].Type = "uchar"
 	out = append(out, Desc{Topo: "point", N: 2, Idx: []int{0, 1}, Kind: "custom", Writers: tab, Unspec: true,
 		Attrs: []Attr{{3, "Position", [][]float64{{1, 2, 3}, {4, 5, 6}}}, {1, "Opacity", [][]float64{{f32(128.0 / 255)}, {1}}}}})
-	if os.Getenv("C04_EXTRA") != "" {
-		// demonstrations of behaviour outside the generator's well-formed class (see notes/C04.md)
+	{
+		// point cloud with texture coordinates (fix ad4b3e5: written per vertex as s, t); a mesh whose only
+		// attribute is TexCoord writes no vertex property (known finding ply:ascii-vertex-without-properties)
 		out = append(out,
 			Desc{Topo: "point", N: 2, Idx: []int{0, 1}, Kind: "default", Attrs: []Attr{{3, "Position", [][]float64{{1, 2, 3}, {4, 5, 6}}}, {2, "TexCoord", [][]float64{{0, 1}, {1, 0}}}}},
 			Desc{Topo: "triangle", N: 3, Idx: []int{0, 1, 2}, Kind: "default", Attrs: []Attr{{2, "TexCoord", [][]float64{{0, 1}, {1, 0}, {1, 1}}}}})
@@ -699,7 +752,9 @@ func main() {
 	for _, in := range run.Inputs() {
 		var d Desc
 		if err := json.Unmarshal(in.Raw, &d); err == nil && d.Topo != "" {
-			run.Add(makeCase(d))
+			for _, c := range makeCase(d) {
+				run.Add(c)
+			}
 		}
 	}
 	if run.Replay != "" {
@@ -707,12 +762,15 @@ func main() {
 		return
 	}
 	for _, d := range corner() {
-		run.Add(makeCase(d))
+		for _, c := range makeCase(d) {
+			run.Add(c)
+		}
 	}
 	r := hx.NewRng(run.Seed)
 	for i := 0; i < run.N; i++ {
 		d := genDesc(r)
-		c := makeCase(d)
+		cs := makeCase(d)
+		c := cs[0]
 		run.Count("topo:" + d.Topo)
 		run.Count("writer:" + d.Kind)
 		run.Count(fmt.Sprintf("attrs:%d", len(d.Attrs)))
@@ -743,7 +801,12 @@ func main() {
 		if c.FailKey != "" {
 			run.Count("failkey:" + c.FailKey)
 		}
-		run.Add(c)
+		if d.Topo == "point" && hasAttr(d, 2, "TexCoord") {
+			run.Count("point:with-texcoord")
+		}
+		for _, x := range cs {
+			run.Add(x)
+		}
 	}
 	run.Finish()
 }
